@@ -2,6 +2,7 @@
 //! real `assets_manager` crate (path dependency on /repo).
 pub mod assets;
 pub mod bytesfid;
+pub mod extra;
 pub mod front;
 pub mod mem;
 pub mod nodes;
